@@ -128,6 +128,10 @@ impl Packing for Packer {
     fn pack_bin(&self,fimg: &mut FileImage,dat: &[u8],load_addr: Option<usize>,trailing: Option<&[u8]>) -> STDRESULT {
         Self::verify(fimg)?;
         if let Some(addr) = load_addr {
+            if dat.len() > u16::MAX as usize {
+                log::error!("binary data too long for the 16 bit length field");
+                return Err(Box::new(Error::Range));
+            }
             let file = BinaryData::pack(dat,u16::try_from(addr)?);
             let padded = match trailing {
                 Some(v) => [file.to_bytes(),v.to_vec()].concat(),
@@ -159,6 +163,10 @@ impl Packing for Packer {
     }
     fn pack_tok(&self,fimg: &mut FileImage,tok: &[u8],lang: ItemType,trailing: Option<&[u8]>) -> STDRESULT {
         Self::verify(fimg)?;
+        if tok.len() > u16::MAX as usize {
+            log::error!("program too long for the 16 bit length field");
+            return Err(Box::new(Error::Range));
+        }
         let padded = TokenizedProgram::pack(&tok,trailing).to_bytes();
         let fs_type = match lang {
             ItemType::ApplesoftTokens => FileType::Applesoft,
